@@ -16,6 +16,10 @@ fn main() {
         eprintln!("usage: harness <stream> <quick|thorough> <seed> <outdir>");
         std::process::exit(2);
     }
+    if args[1] == "gen-epreply" {
+        engine::gen_ep_only_reply(args[2].parse().unwrap(), args[3].parse().unwrap(), &args[4]);
+        return;
+    }
     let stream = args[1].as_str();
     let thorough = args[2] == "thorough";
     let seed: u64 = args[3].parse().unwrap_or(0);
